@@ -20,6 +20,24 @@
      DevDelKey    del_key: look-up, DB rows, commit, *then* private key, *then* cache reset
                   (intended: cache reset, look-up, private key, DB rows, commit)
 
+     DevKeyId     new_key(key_id = that of a listed key) rewrites the private-key file before the INSERT is
+                  refused (intended: KeyError before anything is touched)
+     DevDelCertView  Key.del_cert raises AttributeError (calls a method that does not exist)
+     DevCertObj   get_signer({'cert': <Certificate object>}) raises KeyError (Certificate.name is wire bytes)
+
+   Parameters of the calls that do not change what the call means (same program, same result) but choose
+   another public entry point / argument shape; they overload otherwise unused fields of the op record:
+     NewKey.by   = "keyid": an explicit key_id is passed - of a fresh slot, of a private-key file left by a
+                  failed new_key (the retry), or of a listed key (refused);
+     loc = "view" on NewKey / DelKey / DelCert: through Identity.new_key / Identity.del_key / Key.del_cert;
+     loc = "ext"  on DelKey / DelCert / DelIdentity: performed by a *second* KeychainSqlite3 on the same
+                  store (opened, one call, shut down - e.g. pyndnsec while an application holds the
+                  keychain); only when this instance has no transaction open (it would block); this
+                  instance's signer cache is not reset by it and the keys go to `xgone`, not `gone`;
+     GetSigner.t = "obj": the Identity / Key / Certificate object is passed instead of its name;
+     Fail(o, n, m): m = "call" the private-key-store / database call raises; m = "io" (tpm steps only) the
+                  call is made and the file operation inside TpmFile (open / os.remove) raises.
+
    Interpretations (least likely to alarm on correct code):
      - a key "has been deleted" once a del_key / del_identity covering it returned normally (`gone`);
      - private-key files orphaned by a *failed new_key* are not a violation (nothing was deleted);
@@ -30,13 +48,18 @@
        deletes leaves nothing of what was beneath the target before the first attempt, including
        private keys.  A retried touch_identity may return an identity without keys.
      - get_signer({'cert': c}) is only quantified for c present in the store or c of a deleted key.
+     - two live instances are not in the statement's quantifier: clause "never a signer for a deleted key"
+       is about deletes made through this instance (`gone`).  After a delete by the second instance
+       (`xgone`) the model gives the answer of the code: by identity / key the rows are consulted (KeyError),
+       by certificate name a signer still in this instance's cache is returned.
      - what get_signer returns is a *value* [key, key locator] (Plan(o, S).res), fixed at the moment it is
        returned: a later call does not change a signer handed out earlier.  The executor keeps the last
        signers it was given and re-probes them (verifying key, key locator) after later GetSigner /
        ImportCert / SetDefCert steps and at the end of a history, for as long as their key exists. *)
 EXTENDS Naturals, Sequences, FiniteSets, TLC
 
-CONSTANTS Ids, MaxKeys, Depth, MaxLevel, MaxFaults, DevScope, DevCacheLoc, DevDelKey
+CONSTANTS Ids, MaxKeys, Depth, MaxLevel, MaxFaults, DevScope, DevCacheLoc, DevDelKey,
+          DevKeyId, DevDelCertView, DevCertObj
 
 KeyN == 1..MaxKeys
 Keys == Ids \X KeyN
@@ -49,6 +72,8 @@ Types == {"ec", "rsa"}
 VARIABLE st
 (* st = [cur, disk : DB, tpm : SUBSET Keys, cache : SUBSET [loc, key], open : BOOLEAN,
          gone : SUBSET Keys (history: keys covered by a completed delete),
+         xgone : SUBSET Keys (history: keys deleted by the second instance), txn : a transaction is open,
+         mis : SUBSET Keys (listed keys whose private-key file was overwritten; only with DevKeyId),
          n : calls made (only counted when Depth > 0), nf : faults injected so far]
    The key type (EC / RSA) is a parameter of NewKey only: no step and no invariant depends on it, the
    executor remembers which real key it put into which slot.
@@ -58,7 +83,7 @@ VARIABLE st
 EmptyDB == [ids |-> {}, keys |-> {}, certs |-> {}, dI |-> {}, dK |-> {}, dC |-> {},
             ord |-> [i \in Ids |-> <<>>], lI |-> FALSE, lK |-> {}, lC |-> {}]
 InitSt == [cur |-> EmptyDB, disk |-> EmptyDB, tpm |-> {}, cache |-> {}, open |-> TRUE, gone |-> {},
-           n |-> 0, nf |-> 0]
+           xgone |-> {}, txn |-> FALSE, mis |-> {}, n |-> 0, nf |-> 0]
 Init == st = InitSt
 
 KeysOf(db, i) == {k \in db.keys : k[1] = i}
@@ -106,15 +131,18 @@ ApplyDB0(x, db) ==
 ApplyDB(x, db) == NormLost(ApplyDB0(x, db))
 
 Apply(x, S) ==
-  CASE x.s = "commit" -> [S EXCEPT !.disk = S.cur]
-    [] x.s = "rollback" -> [S EXCEPT !.cur = S.disk]
-    [] x.s = "gen" -> [S EXCEPT !.tpm = @ \cup {x.k}, !.gone = @ \ {x.k}]
+  CASE x.s = "commit" -> [S EXCEPT !.disk = S.cur, !.txn = FALSE]
+    [] x.s = "rollback" -> [S EXCEPT !.cur = S.disk, !.txn = FALSE]
+    [] x.s = "gen" -> [S EXCEPT !.tpm = @ \cup {x.k}, !.gone = @ \ {x.k}, !.xgone = @ \ {x.k}, !.mis = @ \ {x.k}]
+    [] x.s = "regen" -> [S EXCEPT !.tpm = @ \cup {x.k}, !.mis = @ \cup {x.k}]
     [] x.s = "tpmGet" -> S
-    [] x.s = "tpmDel" -> [S EXCEPT !.tpm = @ \ {x.k}]
+    [] x.s = "tpmDel" -> [S EXCEPT !.tpm = @ \ {x.k}, !.mis = @ \ {x.k}]
     [] x.s = "cacheReset" -> [S EXCEPT !.cache = {}]
-    [] x.s = "cachePut" -> [S EXCEPT !.cache = @ \cup {[loc |-> [t |-> x.t, c |-> x.c], key |-> x.k]}]
+    [] x.s = "cachePut" -> [S EXCEPT !.cache = @ \cup {[loc |-> [t |-> x.t, c |-> x.c], key |-> x.k,
+                                                          bad |-> x.k \in S.mis]}]
     [] x.s = "markGone" -> [S EXCEPT !.gone = @ \cup {x.k}]
-    [] OTHER -> [S EXCEPT !.cur = ApplyDB(x, S.cur)]
+    \* every INSERT / UPDATE / DELETE that is executed (also a refused one) opens a transaction
+    [] OTHER -> [S EXCEPT !.cur = ApplyDB(x, S.cur), !.txn = TRUE]
 
 RECURSIVE Run(_, _, _)
 Run(prog, S, n) == IF n = 0 THEN S ELSE Apply(prog[n], Run(prog, S, n - 1))
@@ -171,8 +199,13 @@ Plan(o, S) ==
          THEN [prog |-> IF db.dI = {} THEN << SI("updId", o.i), Commit >> ELSE <<>>, res |-> NoRes("ok")]
          ELSE [prog |-> << SI("insId", o.i), Commit >> \o NewKeyProg(o.k, "ec"), res |-> NoRes("ok")]
     [] o.op = "NewKey" ->
-         IF o.i \in db.ids THEN [prog |-> NewKeyProg(o.k, o.t), res |-> NoRes("ok")]
-         ELSE [prog |-> <<>>, res |-> NoRes("keyerr")]
+         IF o.i \notin db.ids THEN [prog |-> <<>>, res |-> NoRes("keyerr")]
+         ELSE IF o.by = "keyid" /\ o.k \in db.keys
+              THEN (IF DevKeyId
+                    THEN [prog |-> << SK("regen", o.k), Stp("tpmGet", TRUE), Stp("insRefused", TRUE) >>,
+                          res |-> NoRes("integrity")]
+                    ELSE [prog |-> <<>>, res |-> NoRes("keyerr")])
+              ELSE [prog |-> NewKeyProg(o.k, o.t), res |-> NoRes("ok")]
     [] o.op = "ImportCert" ->
          \* (the INSERT is attempted - a fault point - and refused by the UNIQUE index)
          IF <<o.k, 2>> \in db.certs THEN [prog |-> << Stp("insRefused", TRUE) >>, res |-> NoRes("integrity")]
@@ -180,7 +213,9 @@ Plan(o, S) ==
     [] o.op = "SetDefId" -> [prog |-> << SI("updId", o.i), Commit >>, res |-> NoRes("ok")]
     [] o.op = "SetDefKey" -> [prog |-> << SK("updKey", o.k), Commit >>, res |-> NoRes("ok")]
     [] o.op = "SetDefCert" -> [prog |-> << SC("updCert", o.c), Commit >>, res |-> NoRes("ok")]
-    [] o.op = "DelCert" -> [prog |-> << SC("delCert", o.c), Commit, CacheReset >>, res |-> NoRes("ok")]
+    [] o.op = "DelCert" ->
+         IF o.loc = "view" /\ DevDelCertView THEN [prog |-> <<>>, res |-> NoRes("attrerr")]
+         ELSE [prog |-> << SC("delCert", o.c), Commit, CacheReset >>, res |-> NoRes("ok")]
     [] o.op = "DelKey" ->
          [prog |-> DelKeyProg(S, o.k), res |-> NoRes(IF o.k \in db.keys THEN "ok" ELSE "keyerr")]
     [] o.op = "DelIdentity" ->
@@ -190,16 +225,20 @@ Plan(o, S) ==
                           \o << SI("delId", o.i), Commit, CacheReset >>, res |-> NoRes("ok")]
     [] o.op = "GetSigner" ->
          LET r == Resolve(o, db) IN
-         IF ~r.ok THEN [prog |-> <<>>, res |-> NoRes("keyerr")]
+         IF o.by = "cert" /\ o.t = "obj" /\ DevCertObj
+         THEN [prog |-> << Stp("tpmGet", TRUE) >>, res |-> NoRes("keyerr")]
+         ELSE IF ~r.ok THEN [prog |-> <<>>, res |-> NoRes("keyerr")]
          ELSE LET loc == LocOf(o, r)
                   hit == CacheHit(S, r.key, loc) IN
               IF hit # {}
-              THEN [prog |-> <<>>, res |-> [out |-> "ok", sel |-> r.key, got |-> (CHOOSE e \in hit : TRUE).key,
+              THEN [prog |-> <<>>, res |-> LET e == CHOOSE e \in hit : TRUE IN
+                                           [out |-> "ok", sel |-> r.key, got |-> IF e.bad THEN NoKey ELSE e.key,
                                             lt |-> loc.t, lc |-> loc.c]]
               ELSE IF r.key \notin S.tpm THEN [prog |-> << Stp("tpmGet", TRUE) >>, res |-> NoRes("keyerr")]
               ELSE [prog |-> << Stp("tpmGet", TRUE),
                                [Stp("cachePut", FALSE) EXCEPT !.k = r.key, !.t = loc.t, !.c = loc.c] >>,
-                    res |-> [out |-> "ok", sel |-> r.key, got |-> r.key, lt |-> loc.t, lc |-> loc.c]]
+                    res |-> [out |-> "ok", sel |-> r.key, got |-> IF r.key \in S.mis THEN NoKey ELSE r.key,
+                             lt |-> loc.t, lc |-> loc.c]]
     [] o.op = "Close" -> [prog |-> << Stp("rollback", FALSE), CacheReset >>, res |-> NoRes("ok")]
 
 Do(o, S) == LET p == Plan(o, S) IN Run(p.prog, S, Len(p.prog))
@@ -220,39 +259,54 @@ SignBase == {[Op0("GetSigner") EXCEPT !.by = "default", !.loc = "cert"]}
      \cup {[Op0("GetSigner") EXCEPT !.by = "identity", !.i = i, !.loc = "cert"] : i \in Ids}
      \cup {[Op0("GetSigner") EXCEPT !.by = "key", !.k = k, !.loc = l] : k \in Keys, l \in {"cert", "custom"}}
      \cup {[Op0("GetSigner") EXCEPT !.by = "cert", !.c = c, !.loc = l] : c \in Certs, l \in {"cert", "custom"}}
+     \cup {[Op0("GetSigner") EXCEPT !.by = "identity", !.i = i, !.loc = "cert", !.t = "obj"] : i \in Ids}
+     \cup {[Op0("GetSigner") EXCEPT !.by = "key", !.k = k, !.loc = "cert", !.t = "obj"] : k \in Keys}
+     \cup {[Op0("GetSigner") EXCEPT !.by = "cert", !.c = c, !.loc = "cert", !.t = "obj"] : c \in Certs}
 AllOps ==
        {OpI("NewIdentity", i) : i \in Ids}
   \cup {OpI("TouchIdentity", i) : i \in Ids}
   \cup {[OpI("TouchIdentity", k[1]) EXCEPT !.k = k] : k \in Keys}
-  \cup {[OpI("NewKey", k[1]) EXCEPT !.t = t, !.k = k] : k \in Keys, t \in Types}
+  \cup {[OpI("NewKey", k[1]) EXCEPT !.t = t, !.k = k, !.loc = l] : k \in Keys, t \in Types, l \in {"none", "view"}}
+  \cup {[OpI("NewKey", k[1]) EXCEPT !.t = "ec", !.k = k, !.by = "keyid"] : k \in Keys}
   \cup {OpK("ImportCert", k) : k \in Keys}
   \cup {OpI("SetDefId", i) : i \in Ids}
   \cup {OpK("SetDefKey", k) : k \in Keys}
   \cup {OpC("SetDefCert", c) : c \in Certs}
-  \cup {OpC("DelCert", c) : c \in Certs}
-  \cup {OpK("DelKey", k) : k \in Keys}
-  \cup {OpI("DelIdentity", i) : i \in Ids}
+  \cup {[OpC("DelCert", c) EXCEPT !.loc = l] : c \in Certs, l \in {"none", "view", "ext"}}
+  \cup {[OpK("DelKey", k) EXCEPT !.loc = l] : k \in Keys, l \in {"none", "view", "ext"}}
+  \cup {[OpI("DelIdentity", i) EXCEPT !.loc = l] : i \in Ids, l \in {"none", "ext"}}
   \cup SignBase
   \cup {Op0("Close")}
 
+\* a private-key file left by a failed new_key: no row, no cached signer
+OrphanFile(S, k) == k \in S.tpm /\ k \notin S.cur.keys /\ k \notin S.disk.keys /\ k \notin CacheKeys(S)
 Enabled(o, S) ==
   LET db == S.cur IN
   CASE o.op = "NewIdentity" -> TRUE
     [] o.op = "TouchIdentity" ->
          IF o.i \in db.ids THEN o.k = NoKey ELSE FreeSlots(S, o.i) # {} /\ o.k = FreeSlot(S, o.i)
-    [] o.op = "NewKey" -> o.i \in db.ids /\ FreeSlots(S, o.i) # {} /\ o.k = FreeSlot(S, o.i)
+    [] o.op = "NewKey" ->
+         /\ o.i \in db.ids
+         /\ \/ FreeSlots(S, o.i) # {} /\ o.k = FreeSlot(S, o.i)
+            \/ o.by = "keyid" /\ (o.k \in db.keys \/ OrphanFile(S, o.k))
     [] o.op = "ImportCert" -> o.k \in db.keys /\ (<<o.k, 2>> \notin db.certs \/ <<o.k, 2>> \notin S.disk.certs)
     [] o.op = "SetDefId" -> o.i \in db.ids
     [] o.op = "SetDefKey" -> o.k \in db.keys
     [] o.op = "SetDefCert" -> o.c \in db.certs
-    [] o.op = "DelCert" -> o.c \in db.certs \cup S.disk.certs
-    [] o.op = "DelKey" -> o.k \in db.keys \cup S.disk.keys \cup S.tpm
-    [] o.op = "DelIdentity" -> o.i \in db.ids \cup S.disk.ids
+    [] o.op = "DelCert" ->
+         (CASE o.loc = "ext" -> ~S.txn /\ o.c \in db.certs
+            [] o.loc = "view" -> o.c[1] \in db.keys /\ o.c \in db.certs \cup S.disk.certs
+            [] OTHER -> o.c \in db.certs \cup S.disk.certs)
+    [] o.op = "DelKey" ->
+         (CASE o.loc = "ext" -> ~S.txn /\ o.k \in db.keys
+            [] o.loc = "view" -> o.k[1] \in db.ids /\ o.k \in db.keys \cup S.disk.keys \cup S.tpm
+            [] OTHER -> o.k \in db.keys \cup S.disk.keys \cup S.tpm)
+    [] o.op = "DelIdentity" -> IF o.loc = "ext" THEN ~S.txn /\ o.i \in db.ids ELSE o.i \in db.ids \cup S.disk.ids
     [] o.op = "GetSigner" ->
          (CASE o.by = "default" -> TRUE
             [] o.by = "identity" -> o.i \in db.ids
-            [] o.by = "key" -> o.k \in db.keys \/ (o.k \in S.gone /\ o.loc = "cert")
-            [] o.by = "cert" -> o.c \in db.certs \/ (o.c[1] \in S.gone /\ o.loc = "cert"))
+            [] o.by = "key" -> o.k \in db.keys \/ (o.t = "none" /\ ((o.k \in S.gone /\ o.loc = "cert") \/ o.k \in S.xgone))
+            [] o.by = "cert" -> o.c \in db.certs \/ (o.t = "none" /\ o.c[1] \in S.gone \cup S.xgone /\ o.loc = "cert"))
     [] o.op = "Close" -> TRUE
 
 Ops(S) == {o \in AllOps : Enabled(o, S)}
@@ -264,23 +318,30 @@ MaxPts == 4 * MaxKeys + 3
 ObsAlways(S) == IF S.open THEN {<<o, Plan(o, S).res>> : o \in {o \in Ops(S) : o.op = "GetSigner" \/ Plan(o, S).res.out # "ok"}} ELSE {}
 DumpAlias == [st |-> st, obs |-> ObsAlways(st)]
 
-\* Step(o): the call o runs to completion;  Fail(o, n): its n-th fault point raises
+\* Step(o): the call o runs to completion;  Fail(o, n, m): its n-th fault point raises
 Tick(S) == IF Depth > 0 THEN [S EXCEPT !.n = @ + 1] ELSE S
-Exec(o, S) == Tick(IF o.op = "Close" THEN [Do(o, S) EXCEPT !.open = FALSE] ELSE Do(o, S))
+\* the second instance runs the same program on the committed store; it resets *its* cache, not ours
+DoExt(o, S) == LET T == Do(o, S) IN [T EXCEPT !.cache = S.cache, !.gone = S.gone, !.xgone = @ \cup (T.gone \ S.gone)]
+Exec(o, S) == Tick(IF o.op = "Close" THEN [Do(o, S) EXCEPT !.open = FALSE]
+                   ELSE IF o.loc = "ext" THEN DoExt(o, S) ELSE Do(o, S))
 More == Depth = 0 \/ st.n < Depth
 Unlimited == 99
 \* (Call / Crash: the bare transitions, reused by KeychainTrace with its own well-formedness guard)
 Call(o) == st.open /\ st' = Exec(o, st)
-Crash(o, n) == /\ st.open /\ n <= NFaults(o, st)
+IoOk(o, S, n) == LET prog == Plan(o, S).prog
+                     x == prog[FaultPos(prog)[n]] IN
+                 \/ x.s \in {"gen", "regen", "tpmDel"}
+                 \/ x.s = "tpmGet" /\ (o.op # "GetSigner" \/ Len(prog) = 2)     \* the file is there to be opened
+Crash(o, n, m) == /\ st.open /\ n <= NFaults(o, st) /\ o.loc # "ext" /\ (m = "io" => IoOk(o, st, n))
                /\ st' = Tick([Part(o, st, n) EXCEPT !.nf = IF MaxFaults >= Unlimited THEN 0 ELSE @ + 1])
 Step(o) == More /\ st.open /\ Enabled(o, st) /\ Call(o)
 \* MaxFaults = number of failures injected per history at most; >= Unlimited: any number (nf not counted)
-Fail(o, n) == /\ More /\ st.open /\ (MaxFaults >= Unlimited \/ st.nf < MaxFaults)
-              /\ Enabled(o, st) /\ Crash(o, n)
+Fail(o, n, m) == /\ More /\ st.open /\ (MaxFaults >= Unlimited \/ st.nf < MaxFaults)
+                 /\ Enabled(o, st) /\ Crash(o, n, m)
 Reopen == More /\ ~st.open /\ st' = Tick([st EXCEPT !.open = TRUE])
 
 Next == \/ \E o \in AllOps : Step(o)
-        \/ \E o \in AllOps : \E n \in 1..MaxPts : Fail(o, n)
+        \/ \E o \in AllOps : \E n \in 1..MaxPts : \E m \in {"call", "io"} : Fail(o, n, m)
         \/ Reopen
 Spec == Init /\ [][Next]_st
 
@@ -330,7 +391,7 @@ Cascaded(o, B, T) ==
   /\ \A k \in B : k \notin T.cur.keys /\ CertsOf(T.cur, k) = {} /\ k \notin T.tpm /\ k \notin CacheKeys(T)
                   /\ k \notin T.disk.keys /\ CertsOf(T.disk, k) = {}
   /\ (o.op = "DelIdentity" => o.i \notin T.cur.ids /\ o.i \notin T.disk.ids)
-DelOps(S) == {o \in Ops(S) : o.op \in {"DelKey", "DelIdentity"}}
+DelOps(S) == {o \in Ops(S) : o.op \in {"DelKey", "DelIdentity"} /\ o.loc # "ext"}
 DeleteCascadesS(S) ==
   \A o \in DelOps(S) : Plan(o, S).res.out = "ok" => Cascaded(o, Beneath(o, S), Do(o, S))
 
@@ -355,8 +416,12 @@ RetryOk(o, S, n) ==
   /\ (o.op = "DelCert" => o.c \notin T.cur.certs)
   /\ (o.op = "ImportCert" => <<o.k, 2>> \in T.cur.certs)
   /\ (o.op \in {"NewIdentity", "TouchIdentity"} => o.i \in T.cur.ids)
+  \* new_key with an explicit key_id names the same key again: the retry completes it, key pair intact
+  /\ (o.op = "NewKey" => out = "ok" /\ o.k \in T.cur.keys /\ o.k \in T.tpm /\ o.k \notin T.mis)
+\* (a retried new_key without key_id makes another key: not judged; nor the calls of the second instance)
 RetryAfterFailureOkS(S) ==
-  \A o \in Ops(S) : o.op \notin {"GetSigner", "Close", "NewKey"} =>
+  \A o \in Ops(S) : (/\ o.op \notin {"GetSigner", "Close"} /\ o.loc # "ext"
+                      /\ (o.op = "NewKey" => o.by = "keyid" /\ o.k \notin S.cur.keys)) =>
      \A n \in 1..NFaults(o, S) : RetryOk(o, S, n)
 
 MappingViews == MappingViewsS(st)
